@@ -23,3 +23,5 @@ REPLAY = dict(c07.REPLAY)
 REPLAY.update(c03.REPLAY)
 REPLAY.update(c05.REPLAY)
 REPLAY.update(c12.REPLAY)
+from suites import thorough as _th, progenum as _pg
+GROUPS["thorough:enum-function-signatures"] = _th.only_thorough(_pg.g_f3)
